@@ -6,10 +6,12 @@
     Proved for every expression, state and value: a typed expression never raises Type mismatch and
     yields a value of the kind of its type; stores and conditions of well-typed statements cannot
     raise it either; assignments keep every variable of its own kind (the invariant the expression
-    theorem needs). Not proved as a theorem: the same for whole nested statements (IF/SELECT/FOR/
-    WHILE/DO bodies) - decided by running every accepted generated program (no error 13 observed). *)
+    theorem needs); and for WHOLE programs of the core fragment, any nesting: a well-typed program
+    ([wt_program], compared with the checker's verdict on every case) never ends with Type mismatch
+    and keeps every variable of its own kind. Outside the theorems: built-in functions, procedures,
+    arrays (decided by the generated runs: no error 13 observed). *)
 From Coq Require Import List ZArith Bool Floats.SpecFloat.
-From RB Require Import Generated.Tables Val.Variant Val.Arith2 Lang.Ast Lang.Sem Lang.Typing.
+From RB Require Import Generated.Tables Val.Variant Val.Arith2 Lang.Ast Lang.Sem Lang.Typing Lang.TypingStmt.
 Import ListNotations.
 
 Theorem C12_expressions_never_mismatch : forall e q st, etype e = Some q -> env_ok st ->
@@ -40,6 +42,21 @@ Theorem C12_assignment_sound : forall num_text is_negative f p n e st,
   end.
 Proof. exact assignment_sound. Qed.
 
+(** every statement of the core fragment, any nesting *)
+Theorem C12_statement_sound : forall num_text is_negative f s st,
+  wt_stmt s = true -> env_ok (vars st) -> ok_outcome (Sem.exec num_text is_negative f s st).
+Proof. exact exec_sound. Qed.
+
+(** whole programs: accepted => never Type mismatch, variables keep their kind *)
+Theorem C12_program_sound : forall num_text is_negative f p st,
+  wt_program p = true -> env_ok (vars st) -> ok_outcome (Sem.exec_program num_text is_negative f p st).
+Proof. exact program_sound. Qed.
+
+(** [ok_outcome] says what it should *)
+Theorem C12_ok_outcome_means : forall o, ok_outcome o <->
+  match o with Done st' => env_ok (vars st') | Failed x _ _ => x <> ETypeMismatch | _ => True end.
+Proof. intros o. destruct o; split; intro H; exact H. Qed.
+
 (** non-vacuity: the empty state is well-kinded and "ab" + S$ is typed *)
 Example C12_example : env_ok [] /\ etype (EBin (1, 6)%nat Plus (ELit (1, 1)%nat (VString [97; 98]%Z)) (EVar (1, 8)%nat ([83%Z], QString))) = Some QString.
 Proof. split; [intros [b q]; destruct q; reflexivity|reflexivity]. Qed.
@@ -49,3 +66,6 @@ Print Assumptions C12_operators_on_admitted_kinds.
 Print Assumptions C12_store_never_mismatches.
 Print Assumptions C12_conditions_never_mismatch.
 Print Assumptions C12_assignment_sound.
+Print Assumptions C12_statement_sound.
+Print Assumptions C12_program_sound.
+Print Assumptions C12_ok_outcome_means.
